@@ -177,14 +177,19 @@ class Exec:
         if all(isinstance(v, z3.BoolRef) for v in vals):
             return z3.And(*vals) if isinstance(n.op, ast.And) else z3.Or(*vals)
         # value semantics
-        res = vals[-1]
-        for v in reversed(vals[:-1]):
-            g = boolify(v)
-            if isinstance(n.op, ast.And):
-                res = merge_val(g, res, v)
-            else:
-                res = merge_val(g, v, res)
-        return res
+        try:
+            res = vals[-1]
+            for v in reversed(vals[:-1]):
+                g = boolify(v)
+                if isinstance(n.op, ast.And):
+                    res = merge_val(g, res, v)
+                else:
+                    res = merge_val(g, v, res)
+            return res
+        except Unsupported:
+            # operands of unrelated types: only the truth value is meaningful (tests of if/while/assert)
+            bs = [boolify(v) for v in vals]
+            return z3.And(*bs) if isinstance(n.op, ast.And) else z3.Or(*bs)
 
     def e_UnaryOp(self, n, st, spec, b):
         v = self.ev(n.operand, st, spec, b)
@@ -519,7 +524,8 @@ class Exec:
                 self.oblige(f"index", "index", st, z3.And(0 <= j, j < base.n), node)
             return self.world.wrap_elem(self, base, base.arr[j], st)
         if isinstance(base, MapV):
-            return base.arr[zint(idx)]
+            v = base.arr[zint(idx)]
+            return MapV(v) if z3.is_array(v) else v
         if isinstance(base, ObjV):
             h = self.world.method_handler(base.cls, "__getitem__")
             if h is not None:
